@@ -32,6 +32,60 @@ func runC06(c *Ctx) {
 	s.checkErrorsNotSwallowed(c, "errors-not-swallowed", inPkgs("command"), "a signal that could not be delivered would be reported as delivered, so no escalation follows")
 	s.checkFailedShutdownCommandKills(c)
 	s.checkOrderedOrderComplete(c)
+	// a live update that changes only the shutdown parameters reaches the running process: the configuration
+	// comparison covers every field of ShutDownParams (whole, or field by field)
+	{
+		rCmp := c.Rule("shutdown-params-compared", "the configuration comparison used by the live update compares ShutDownParams as a whole or accesses each of its fields (signal, parent_only, timeout, command) on both operands")
+		var cmp *ssa.Function
+		bestN := -1
+		for _, f := range p.FuncsOfPkg("types") {
+			if !recvIs(f, s.ProcConf) || f.Parent() != nil {
+				continue
+			}
+			sig := f.Signature
+			if sig.Params().Len() == 1 && isPtrTo(sig.Params().At(0).Type(), s.ProcConf) && sig.Results().Len() == 1 && types.Identical(sig.Results().At(0).Type(), types.Typ[types.Bool]) {
+				n := 0
+				AllInstrs(f, func(in ssa.Instruction) {
+					if _, ok := in.(*ssa.FieldAddr); ok {
+						n++
+					}
+				})
+				if n > bestN {
+					cmp, bestN = f, n
+				}
+			}
+		}
+		if c.Check(cmp != nil, rCmp, "compare-fn", "", "comparison found", "no comparison of two process configurations found") {
+			c.Touch(cmp)
+			whole := 0
+			sub := map[*types.Var]int{}
+			AllInstrs(cmp, func(in ssa.Instruction) {
+				switch x := in.(type) {
+				case *ssa.UnOp:
+					if fa, ok := x.X.(*ssa.FieldAddr); ok && x.Op == token.MUL {
+						if st := derefStruct(fa.X.Type()); st != nil && st.Field(fa.Field) == s.FShutDownParams {
+							whole++
+						}
+					}
+				case *ssa.FieldAddr:
+					if inner, ok := x.X.(*ssa.FieldAddr); ok {
+						if st := derefStruct(inner.X.Type()); st != nil && st.Field(inner.Field) == s.FShutDownParams {
+							sub[derefStruct(x.X.Type()).Field(x.Field)]++
+						}
+					}
+				}
+			})
+			missing := ""
+			if whole < 2 {
+				for _, fld := range []*types.Var{s.FSignal, s.FParentOnly, s.FShutDownTimeout, s.FShutDownCommand} {
+					if sub[fld] < 2 {
+						missing = fld.Name()
+					}
+				}
+			}
+			c.Check(missing == "", rCmp, "fields", FirstPos(p, cmp), "every shutdown parameter takes part in the comparison", "the configuration comparison leaves out shutdown."+missing+": an update that changes only this parameter is treated as \"up to date\", the running process keeps the old value and is stopped with the wrong signal scope / signal / timeout / command")
+		}
+	}
 	requireN("StopCore", s.StopCores, 1, 1)
 	sigkill := int64(9)
 
